@@ -43,7 +43,9 @@ def nan_step(cfg, n_iter, i):
                         [SM + "_gradient_step", SM + "solve._one_iteration", "jinns.utils._utils:_check_nan_in_pytree"])
 
 
-def check_nan_ob():
+def check_nan_ob(dtype=None):
+    """dtype: the floating type the parameter leaves are stored in (None: float64); every inexact type can hold a NaN"""
+    dt = {None: None, "float32": jnp.float32, "float16": jnp.float16, "bfloat16": jnp.bfloat16}[dtype]
     def build():
         def fn(x, y, z):
             return _check_nan_in_pytree(Params(nn_params={"w": x, "b": y}, eq_params={"k": z}))
@@ -55,8 +57,10 @@ def check_nan_ob():
             for q in leaves:
                 acc = P.b_or(acc, P.b_isnan(q))
             return arr(lambda _: acc, ())
-        return dict(fn=fn, spec=spec, canary=lambda *q: spec(*q, wrong=True), inputs=[Inp("x", (2, 2)), Inp("y", (2,)), Inp("z", ())])
-    return EqObligation("C18/_check_nan_in_pytree/ensures.any_isnan_of_every_leaf", build, ["jinns.utils._utils:_check_nan_in_pytree"])
+        return dict(fn=fn, spec=spec, canary=lambda *q: spec(*q, wrong=True),
+                    inputs=[Inp("x", (2, 2), dtype=dt), Inp("y", (2,), dtype=dt), Inp("z", (), dtype=dt)])
+    return EqObligation("C18/_check_nan_in_pytree/ensures.any_isnan_of_every_leaf" + (f"[leaves stored as {dtype}]" if dtype else ""), build,
+                        ["jinns.utils._utils:_check_nan_in_pytree"])
 
 
 def lemma(seed):
@@ -102,7 +106,7 @@ import time
 
 
 def obligations(tier):
-    obs = [check_nan_ob()]
+    obs = [check_nan_ob(), check_nan_ob("float32"), check_nan_ob("float16"), check_nan_ob("bfloat16")]
     n_iters = (3,) if tier == "quick" else (1, 2, 3, 5)
     cfgs = c07.configs(tier)
     for cfg in (cfgs[0], cfgs[1], cfgs[2]):
